@@ -25,33 +25,91 @@ type vhCrashFS struct {
 	vfs.FS
 	n, k int
 	dead bool
+	// alternative addressing of the crash point, independent of how many files a
+	// database consists of: the occ-th operation with label sel ("<op>:<class of path>")
+	sel      string
+	occ, cnt int
+}
+
+var vhCrashOps = []string{"Stat", "MkdirAll", "Open", "Create", "Rename", "RemoveAll", "List", "Write", "Sync"}
+var vhCrashClasses = []string{"nodedir", "current", "updating", "dbdir", "dbfile", "ingest", "other"}
+
+// vhClass classifies a path below the node directory.
+func vhClass(name string) string {
+	switch {
+	case name == vhNodeDir:
+		return "nodedir"
+	case !strings.HasPrefix(name, vhNodeDir+"/"):
+		return "other"
+	}
+	rest := name[len(vhNodeDir)+1:]
+	switch {
+	case rest == "current":
+		return "current"
+	case strings.HasPrefix(rest, "current."):
+		return "updating"
+	case strings.HasPrefix(rest, "ingest-"):
+		return "ingest"
+	case strings.Contains(rest, "/"):
+		return "dbfile"
+	}
+	return "dbdir"
 }
 
 type vhCrash struct{}
 
 var errVHCrashed = errors.New("vh: crashed")
 
-func vhCallerIsRegatta() bool {
-	for skip := 3; skip < 6; skip++ {
+// vhCaller classifies the code that issued a file-system operation:
+// "regatta", "pebble-open" (github.com/cockroachdb/pebble.Open itself) or "".
+func vhCaller() string {
+	for skip := 3; skip < 10; skip++ {
 		pc, _, _, ok := runtime.Caller(skip)
 		if !ok {
-			return false
+			return ""
 		}
 		name := runtime.FuncForPC(pc).Name()
-		if strings.Contains(name, "vhCrash") {
+		if strings.Contains(name, "vhCrash") || strings.Contains(name, "/pebble/vfs.") {
 			continue
 		}
-		return strings.HasPrefix(name, "github.com/jamf/regatta/")
+		if strings.HasPrefix(name, "github.com/jamf/regatta/") {
+			return "regatta"
+		}
+		if name == "github.com/cockroachdb/pebble.Open" {
+			return "pebble-open"
+		}
+		return ""
 	}
-	return false
+	return ""
 }
 
-// tick reports whether the operation may proceed.
-func (c *vhCrashFS) tick() bool {
+// tick reports whether the operation may proceed. Counted as crash points:
+// every operation issued by regatta code, and the MkdirAll with which
+// pebble.Open starts (the point in front of Pebble's own creation and sync of
+// the database directory).
+func (c *vhCrashFS) tick(op, name string) bool {
 	if c.dead {
 		return false
 	}
-	if verif.Symbolic() || vhCallerIsRegatta() {
+	if c.sel != "" {
+		who := "regatta"
+		if !verif.Symbolic() {
+			who = vhCaller()
+		}
+		if (who == "regatta" || (who == "pebble-open" && op == "MkdirAll")) && op+":"+vhClass(name) == c.sel {
+			c.cnt++
+			if c.cnt == c.occ {
+				c.dead = true
+				panic(vhCrash{})
+			}
+		}
+		return true
+	}
+	who := ""
+	if !verif.Symbolic() {
+		who = vhCaller()
+	}
+	if verif.Symbolic() || who == "regatta" || (who == "pebble-open" && op == "MkdirAll") {
 		c.n++
 		if c.k != 0 && c.n == c.k {
 			c.dead = true
@@ -62,51 +120,51 @@ func (c *vhCrashFS) tick() bool {
 }
 
 func (c *vhCrashFS) Stat(name string) (os.FileInfo, error) {
-	if !c.tick() {
+	if !c.tick("Stat", name) {
 		return nil, errVHCrashed
 	}
 	return c.FS.Stat(name)
 }
 func (c *vhCrashFS) MkdirAll(dir string, perm os.FileMode) error {
-	if !c.tick() {
+	if !c.tick("MkdirAll", dir) {
 		return errVHCrashed
 	}
 	return c.FS.MkdirAll(dir, perm)
 }
 func (c *vhCrashFS) Open(name string, opts ...vfs.OpenOption) (vfs.File, error) {
-	if !c.tick() {
+	if !c.tick("Open", name) {
 		return nil, errVHCrashed
 	}
 	f, err := c.FS.Open(name, opts...)
 	if err != nil {
 		return nil, err
 	}
-	return &vhCrashFile{File: f, c: c}, nil
+	return &vhCrashFile{File: f, c: c, name: name}, nil
 }
 func (c *vhCrashFS) Create(name string) (vfs.File, error) {
-	if !c.tick() {
+	if !c.tick("Create", name) {
 		return nil, errVHCrashed
 	}
 	f, err := c.FS.Create(name)
 	if err != nil {
 		return nil, err
 	}
-	return &vhCrashFile{File: f, c: c}, nil
+	return &vhCrashFile{File: f, c: c, name: name}, nil
 }
 func (c *vhCrashFS) Rename(oldname, newname string) error {
-	if !c.tick() {
+	if !c.tick("Rename", newname) {
 		return errVHCrashed
 	}
 	return c.FS.Rename(oldname, newname)
 }
 func (c *vhCrashFS) RemoveAll(name string) error {
-	if !c.tick() {
+	if !c.tick("RemoveAll", name) {
 		return errVHCrashed
 	}
 	return c.FS.RemoveAll(name)
 }
 func (c *vhCrashFS) List(dir string) ([]string, error) {
-	if !c.tick() {
+	if !c.tick("List", dir) {
 		return nil, errVHCrashed
 	}
 	return c.FS.List(dir)
@@ -114,17 +172,18 @@ func (c *vhCrashFS) List(dir string) ([]string, error) {
 
 type vhCrashFile struct {
 	vfs.File
-	c *vhCrashFS
+	c    *vhCrashFS
+	name string
 }
 
 func (f *vhCrashFile) Write(p []byte) (int, error) {
-	if !f.c.tick() {
+	if !f.c.tick("Write", f.name) {
 		return 0, errVHCrashed
 	}
 	return f.File.Write(p)
 }
 func (f *vhCrashFile) Sync() error {
-	if !f.c.tick() {
+	if !f.c.tick("Sync", f.name) {
 		return errVHCrashed
 	}
 	return f.File.Sync()
